@@ -643,7 +643,7 @@ def check_text(text, oracles, do_path, tag, built, acc, meta):
         if want is not None:
             key = classify(got, want, got.get('short_reads', 0))
             if key is not None:
-                acc['viol'].append({'key': key, 'source': 'stream', 'text': text, 'sizes': sizes,
+                acc['viol'].append({'key': key, 'source': 'stream', 'text': text, 'sizes': sizes, 'dom': True,
                                     'observed': summary(got), 'required': summary(want)})
         if models is not None and key is None and not outside_c01(got):
             for which, m in (('reader', models[i]), ('spec', models[-1])):
@@ -667,11 +667,12 @@ def check_text(text, oracles, do_path, tag, built, acc, meta):
             if key is None and got_full is not None and not same_obs(gp, got_full, fmt=('\r' not in text)):
                 key = 'pred:path-differs-from-stream'
             if key is not None:
-                acc['viol'].append({'key': key, 'source': 'path', 'text': text, 'sizes': [],
+                acc['viol'].append({'key': key, 'source': 'path', 'text': text, 'sizes': [], 'dom': True,
                                     'observed': summary(gp), 'required': summary(wantp)})
         elif got_full is not None and '\r' not in text and not same_obs(gp, got_full):
-            acc['viol'].append({'key': gp['key'] if gp['st'] == 'crash' and got_full['st'] != 'crash' else 'pred:path-differs-from-stream', 'source': 'path', 'text': text, 'sizes': [],
-                                'observed': summary(gp), 'required': summary(got_full)})
+            crashed_differently = gp['st'] == 'crash' and gp.get('key') != got_full.get('key')
+            acc['viol'].append({'key': gp['key'] if crashed_differently else 'pred:path-differs-from-stream', 'source': 'path',
+                                'text': text, 'sizes': [], 'dom': False, 'observed': summary(gp), 'required': summary(got_full)})
         acc['distinct'].append(((text, (), 'path'), nseg >= 3))
     # re-read law on the real code: format the yielded segments, read again -> same (trimmed) segments, same text
     if got_full is not None and got_full['st'] == 'ok' and want is not None and classify(got_full, want, 0) is None:
@@ -679,13 +680,21 @@ def check_text(text, oracles, do_path, tag, built, acc, meta):
         text2 = ''.join(s['fmt'] for s in got_full['segs'])
         again = read_stream(text2, []) if len(got_full['segs']) > 0 else None
         if again is not None:
-            ok = again['st'] == 'ok' and [s['fmt'] for s in again['segs']] == [s['fmt'] for s in got_full['segs']] and \
-                [(s['id'], [rstrip_empty(c) or [''] for c in rstrip_empty_elems(s['elems'])]) for s in got_full['segs']] == \
-                [(s['id'], s['elems']) for s in again['segs']] and \
-                all(set(s['errs']) <= {'SEG1'} for s in again['segs'])
-            if not ok:
-                acc['viol'].append({'key': again['key'] if again['st'] != 'ok' else 'pred:reread-differs', 'source': 'reread',
-                                    'text': text, 'sizes': [], 'observed': summary(again), 'required': summary(got_full)})
+            want2 = oracle(text2) if in_domain(text2) else None
+            key2 = classify(again, want2, 0) if want2 is not None else None
+            if key2 is not None:
+                # the formatted text is itself an interchange the reader mis-reads
+                acc['viol'].append({'key': key2, 'source': 'stream', 'text': text2, 'sizes': [], 'dom': True,
+                                    'observed': summary(again), 'required': summary(want2)})
+            else:
+                ok = again['st'] == 'ok' and [s['fmt'] for s in again['segs']] == [s['fmt'] for s in got_full['segs']] and \
+                    [(s['id'], [rstrip_empty(c) or [''] for c in rstrip_empty_elems(s['elems'])]) for s in got_full['segs']] == \
+                    [(s['id'], s['elems']) for s in again['segs']] and \
+                    all(set(s['errs']) <= {'SEG1'} for s in again['segs'])
+                if not ok:
+                    acc['viol'].append({'key': again['key'] if again['st'] != 'ok' else 'pred:reread-differs', 'source': 'reread',
+                                        'text': text, 'sizes': [], 'dom': True, 'observed': summary(again),
+                                        'required': summary(got_full)})
     return want, got_full
 
 
@@ -724,7 +733,7 @@ def chunk_worker(args):
         do_path = ascii_ok and (len(text) < 20000 or rnd.random() < 0.3)
         want, got = check_text(text, oracles, do_path, '%d_%d' % (os.getpid(), chunk), built, acc, meta)
         bump(dist, 'kind:' + meta['kind'])
-        bump(dist, 'delims:' + repr(''.join(meta['triple'])))
+        bump(dist, 'delims:' + (repr(''.join(meta['triple'])) if meta['triple'] in TRIPLES else 'random triple of distinct punctuation/control characters'))
         bump(dist, 'linebreak:' + repr(meta['brk']))
         bump(dist, 'version:' + meta['icvn'])
         bump(dist, 'in_domain' if want is not None else 'outside_domain')
@@ -738,9 +747,10 @@ def chunk_worker(args):
             bump(dist, 'longest_segment:' + ('<=8192' if mx <= BUF else '<=16384' if mx <= 16384 else '>16384'))
             bump(dist, 'segments_total', len(want['segs']))
         if i == 3 and chunk < 4:
-            acc['samples'].append({'text': text[:300], 'len': len(text), 'delims': ''.join(meta['triple']),
+            acc['samples'].append({'text_head': text[:200], 'len': len(text), 'delims': ''.join(meta['triple']),
                                    'oracles': [(k, s[:8]) for k, s in oracles], 'path': do_path,
-                                   'segments': len(want['segs']) if want else None, 'code': summary(got, 3)})
+                                   'segments': len(want['segs']) if want else None,
+                                   'code': (summary(got, 2) or '')[:300]})
     # distinct accounting is done in the parent on hashes only
     acc['distinct'] = [(hash_case(c), nt) for c, nt in acc['distinct']]
     return acc
@@ -823,6 +833,22 @@ def segment_model(line):
     return ('S', s['id'], tuple(tuple(c) for c in s['elems']), s['fmt'])
 
 
+HDR = 'ISA*00*          *00*          *ZZ*SENDER         *ZZ*RECEIVER       *200101*1200*U*00401*000000001*0*P*:~'
+
+# fixed witnesses of the defects found on the unchanged code (always run): (name, text, read sizes, by path too)
+CORPUS = [
+    ('D1 open by path', HDR + '\nGS*HC*S*R~\nST*837*0001~\n', [], True),
+    ('D2 empty segment', HDR + 'GS*HC*S*R~~ST*837*0001~SE*2*0001~', [], False),
+    ('D2 empty segment between line breaks', HDR + '\nGS*HC*S*R~\n~\nST*837*0001~\n', [], False),
+    ('D3 segment longer than the buffer', HDR + 'NTE*ADD*' + 'X' * 20000 + '~ST*837*0001~', [], False),
+    ('D3 segment of exactly one buffer', HDR + 'NTE*' + 'X' * (BUF - 4) + '~ST*837*0001~', [], False),
+    ('D3 short reads', HDR + 'GS*HC*S*R~ST*837*0001~SE*2*0001~', [106, 8, 1, 1, 5], False),
+    ('D3 header delivered in two reads', HDR + 'GS*HC*S*R~ST*837*0001~', [50], False),
+    ('D4 blank-only segment', HDR + 'GS*HC*S*R~   ~ST*837*0001~', [], False),
+    ('D4 blank-only last segment', HDR + 'GS*HC*S*R~\n ~', [], False),
+]
+
+
 # ------------------------------------------------------------------------------------ entry points
 
 OBLIGATION_NOTE = 'see lean/Audit/C01.lean'
@@ -876,18 +902,6 @@ def run(tier):
                        'non-trivial = at least 3 segments and one of: non-default delimiters, line-break style other than '
                        'LF, a short read, a segment crossing a multiple of 8192, leading blank, trailing separator')
     built = common.proof_stage(res, 'C01')
-    if built:
-        # the C12 corollary is stated and audited with C01 (it is a statement about the same models)
-        ax, missing, _ = common.lean_audit('C12')
-        for thm, a in sorted(ax.items()):
-            res.obligations.append(thm)
-            if set(a) <= common.STD_AXIOMS:
-                res.discharged.append(thm)
-            else:
-                res.broke('axioms:' + thm, 'depends on ' + ', '.join(a))
-        for m in missing:
-            res.obligations.append(m)
-            res.broke('theorem:' + m, 'not found by the audit')
     thorough = tier == 'thorough'
     ntexts = 100000 if thorough else 3000
     nchunks = 200 if thorough else 24
@@ -925,6 +939,10 @@ def run(tier):
                         break
             nseg = len(want['segs']) if want else 0
             acc['distinct'].append((hash_case((t, tuple(sizes), 'stream')), nseg >= 3 and (' ' in t[ISA_LEN:] or '*' in t[ISA_LEN:])))
+    # fixed witnesses
+    for name, t, sizes, by_path in CORPUS:
+        m0 = {'triple': ('~', '*', ':'), 'brk': '', 'feats': set()}
+        check_text(t, [('full', [])] + ([('corpus', sizes)] if sizes else []), by_path, 'corpus_%d' % os.getpid(), built, acc, m0)
     # direct Segment differential
     rnd = random.Random(common.seed() * 31 + 5)
     strs = list(segment_strings(tier, rnd))
@@ -983,7 +1001,7 @@ def run(tier):
     for v in viol:
         bykey.setdefault(v['key'] + '|' + v['source'], []).append(v)
     for kk, items in sorted(bykey.items()):
-        items.sort(key=lambda v: len(v['text']))
+        items.sort(key=lambda v: (not v.get('dom', True), len(v['text'])))
         first = minimise(items[0])
         key = first['key']
         what = '%s read: code gives %s; required %s' % (first['source'], first['observed'], first['required'])
